@@ -35,17 +35,18 @@ type SpsaSet struct {
 
 // SearchStep is one searched ply.
 type SearchStep struct {
-	Req        Request `json:"req"`
-	Sched      Sched   `json:"sched,omitempty"`
-	TwinSched  []Sched `json:"twin_sched,omitempty"`   // one per twin (interleaved among themselves)
-	SoftToHard bool    `json:"soft_to_hard,omitempty"` // twins get WithNodes(N of the primary) instead of the soft limit
-	Sweep      *Sweep  `json:"sweep,omitempty"`
-	Clear      bool    `json:"clear,omitempty"`       // Clear() before this search (all persistent engines)
-	ClearFirst bool    `json:"clear_first,omitempty"` // Clear() before the ResizeTT of this step instead of after it
-	Resize     int     `json:"resize,omitempty"`      // ResizeTT(bytes) before this search
-	Play       string  `json:"play"`                  // move to play afterwards: "best", "" (none; search the same root again) or UCI text
-	NewRoot    *Root   `json:"new_root,omitempty"`    // before this step: leave the current game and set up this root (the engines keep their state)
-	Research   bool    `json:"research,omitempty"`    // search the same root once more with a small budget afterwards (engine reusable)
+	Req           Request `json:"req"`
+	Sched         Sched   `json:"sched,omitempty"`
+	TwinSched     []Sched `json:"twin_sched,omitempty"`      // one per twin (interleaved among themselves)
+	SoftToHard    bool    `json:"soft_to_hard,omitempty"`    // twins get WithNodes(N of the primary) instead of the soft limit
+	TwinDebugFlip bool    `json:"twin_debug_flip,omitempty"` // twins run with the Debug option inverted
+	Sweep         *Sweep  `json:"sweep,omitempty"`
+	Clear         bool    `json:"clear,omitempty"`       // Clear() before this search (all persistent engines)
+	ClearFirst    bool    `json:"clear_first,omitempty"` // Clear() before the ResizeTT of this step instead of after it
+	Resize        int     `json:"resize,omitempty"`      // ResizeTT(bytes) before this search
+	Play          string  `json:"play"`                  // move to play afterwards: "best", "" (none; search the same root again) or UCI text
+	NewRoot       *Root   `json:"new_root,omitempty"`    // before this step: leave the current game and set up this root (the engines keep their state)
+	Research      bool    `json:"research,omitempty"`    // search the same root once more with a small budget afterwards (engine reusable)
 }
 
 // Sweep runs the same request from the same engine state (clones) at many
@@ -242,6 +243,9 @@ func (r *searchRun) run() {
 		// persistent twins: same request (or its hard-budget translation), interleaved
 		if len(twins) > 0 {
 			treq := req
+			if st.TwinDebugFlip {
+				treq.Debug = !req.Debug // Debug only adds statistics: it is not a limit
+			}
 			ignoreAbortLine := false
 			if st.SoftToHard && (req.SoftNodes > 0 || req.SoftTime > 0) && !res.Aborted {
 				treq.SoftNodes, treq.SoftTime = 0, 0
